@@ -58,6 +58,18 @@ fn main() {
             }
             let root = std::env::var("ZV_ROOT").unwrap_or_else(|_| "/verif".into());
             let _ = std::fs::create_dir_all(format!("{root}/replays/{}", prop.id));
+            // the crate prints "ZipWriter drop failed" to stderr from Drop; keep that out of the
+            // check's output (it goes to a log file), our own diagnostics use the saved fd
+            unsafe {
+                let saved = libc::dup(2);
+                if let Ok(f) = std::fs::File::create(format!("{root}/replays/{}/.stderr.log", prop.id)) {
+                    use std::os::unix::io::IntoRawFd;
+                    let fd = f.into_raw_fd();
+                    libc::dup2(fd, 2);
+                    libc::close(fd);
+                    engine::DIAG_FD.store(saved as u64, std::sync::atomic::Ordering::Relaxed);
+                }
+            }
             engine::install_fatal_handlers(std::path::Path::new(&format!("{root}/replays/{}/.inflight.bin", prop.id)));
             let only = !matches!(mode, Mode::Run);
             let mut ctx = Ctx::new(prop.id, tier, seed(), prop.level, mode);
